@@ -121,6 +121,30 @@ impl<T> Bucket<T> {
     pub fn drop(&self) { unimplemented!() }
 }
 impl RawTableInner {
+    // contract proved in unit `ctrl` on the extracted text of prepare_insert_slot
+    #[verifier::external_body]
+    pub fn prepare_insert_slot(&mut self, hash: u64) -> (r: (usize, Tag))
+        requires
+            old(self).shape(), old(self).mirrored(),
+            exists|i: int| 0 <= i < old(self).nb() && old(self).ctrl@[i] >= 0x80u8,
+        ensures
+            final(self).shape(), final(self).mirrored(),
+            final(self).bucket_mask == old(self).bucket_mask,
+            final(self).items == old(self).items,
+            final(self).growth_left == old(self).growth_left,
+            r.0 < old(self).nb(),
+            r.1.0 == old(self).ctrl@[r.0 as int], r.1.0 >= 0x80u8,
+            final(self).ctrl@ == old(self).ctrl@.update(r.0 as int, spec_tag(hash)).update(old(self).mirror_index(r.0 as int), spec_tag(hash)),
+    {
+        unimplemented!()
+    }
+    #[verifier::external_body]
+    pub fn bucket<T>(&self, index: usize) -> (r: Bucket<T>)
+        requires index < self.nb(),
+        ensures r.index@ == index,
+    {
+        unimplemented!()
+    }
     // contract proved in unit `ctrl` on the extracted text of erase
     #[verifier::external_body]
     pub fn erase(&mut self, index: usize)
